@@ -43,7 +43,7 @@ PURE_NAMES = {'len', 'is_empty', 'is_active', 'is_some', 'is_none', 'is_ok', 'is
               'first', 'last', 'capacity', 'contains_key', 'contains', 'type_id', 'of', 'size_of', 'as_str', 'iter', 'iter_mut', 'cast', 'add', 'offset', 'sub',
               'from_raw_parts', 'from_raw_parts_mut', 'split_first', 'split_first_mut', 'split_at', 'split_at_mut', 'split_last', 'clone', 'count_ones',
               'wrapping_add', 'wrapping_sub', 'unchecked_add', 'unchecked_sub', 'overflowing_add', 'overflowing_sub', 'saturating_add', 'saturating_sub', 'min', 'max', 'new', 'as_slice', 'hasher', 'eq', 'ne', 'lt', 'le', 'gt', 'ge',
-              'copied', 'cloned', 'from', 'into', 'get_unchecked_mut', 'size_hint', 'unwrap_unchecked', 'unwrap', 'expect', 'as_bytes', 'to_owned'}
+              'component_len', 'check_len', 'check_len_against', 'copied', 'cloned', 'from', 'into', 'get_unchecked_mut', 'size_hint', 'unwrap_unchecked', 'unwrap', 'expect', 'as_bytes', 'to_owned'}
 
 
 def tstr(t, depth=0):
@@ -232,7 +232,7 @@ def norm_cmp(op, a, b):
 
 
 class Engine:
-    def __init__(self, prog, fn, inline=None, max_paths=MAX_PATHS, max_visits=MAX_VISITS, max_depth=MAX_DEPTH, models=True, params=None, follow=None, inline_eq=False, consts=None):
+    def __init__(self, prog, fn, inline=None, max_paths=MAX_PATHS, max_visits=MAX_VISITS, max_depth=MAX_DEPTH, models=True, params=None, follow=None, inline_eq=False, consts=None, self_methods=None):
         """inline(callee Fn) -> bool decides which crate-local callees are walked inline in addition to
         closures (always) and the functions the rule set has never seen (vlib/baseline_fns.json)."""
         self.prog = prog
@@ -252,6 +252,9 @@ class Engine:
         self._promoted = {}
         self.consts = consts or {}
         self.inline_eq = inline_eq
+        # {(trait path, method name): Fn}: how calls on the generic `Self` of a provided trait method resolve
+        # when that body is analysed for one particular impl
+        self.self_methods = self_methods or {}
 
     # ------------------------------------------------------------------------------------------
     def run(self):
@@ -784,6 +787,12 @@ class Engine:
     def callee_fn(self, f):
         """Crate-local Fn for a call target (resolved impl method preferred)."""
         r = f.get('res')
+        if self.self_methods and not r:
+            ga = [a for a in f.get('args', []) if a.get('k') != 'region']
+            if ga and ga[0].get('k') == 'param' and ga[0].get('name') == 'Self':
+                m = self.self_methods.get((f['path'].rsplit('::', 1)[0], f.get('name') or f['path'].rsplit('::', 1)[-1]))
+                if m is not None:
+                    return m
         for cand in (r, f):
             if cand and cand.get('local') and cand.get('dp') in self.by_dp:
                 return self.by_dp[cand['dp']]
